@@ -470,7 +470,8 @@ def gen_holes(rng, shell, want):
 
 
 def gen_polygon(rng, quick):
-    fam = rng.choice(['convex', 'monotone', 'monotone', 'star', 'comb', 'spiral', 'rect', 'tri', 'holes', 'holes', 'holes', 'holetree', 'bigthin'])
+    fam = rng.choice(['convex', 'monotone', 'monotone', 'star', 'comb', 'spiral', 'rect', 'tri', 'holes', 'holes', 'holes', 'holetree', 'bigthin',
+                      'pinch', 'pinch', 'pinch', 'pinch', 'pinch', 'pinch'])
     sc = 1
     if fam == 'convex': shell = convex_ring(rng, rng.randint(3, 12), rng.choice([3, 10, 1000]))
     elif fam == 'monotone': shell = monotone_ring(rng, rng.randint(3, 14 if quick else 30), rng.choice([2, 5, 50]))
@@ -479,6 +480,40 @@ def gen_polygon(rng, quick):
     elif fam == 'spiral': shell = spiral_ring(rng, rng.randint(2, 5))
     elif fam == 'rect': w, h = rng.randint(1, 9), rng.randint(1, 9); shell = [(0, 0), (w, 0), (w, h), (0, h), (0, 0)]
     elif fam == 'tri': shell = [(0, 0), (rng.randint(1, 9), rng.randint(-3, 3)), (rng.randint(-3, 9), rng.randint(4, 9)), (0, 0)]
+    elif fam == 'pinch':       # notched box with large holes that touch the shell / each other at single points: the joined ring
+        # revisits those vertices, which is where PolygonEarClipper::isValidEarScan decides ears (both passes, both edges)
+        W, H = rng.randint(8, 15), rng.randint(8, 15)
+        dent = lambda: rng.randint(0, 2) if rng.random() < 0.33 else 0
+        shell = [(0, 0)]
+        x = 2
+        while x < W: shell.append((x, dent())); x += rng.randint(1, 4)
+        shell.append((W, 0)); y = 2
+        while y < H: shell.append((W - dent(), y)); y += rng.randint(1, 4)
+        shell.append((W, H)); x = W - 2
+        while x > 0: shell.append((x, H - dent())); x -= rng.randint(1, 4)
+        shell.append((0, H)); y = H - 2
+        while y > 0: shell.append((dent(), y)); y -= rng.randint(1, 4)
+        shell.append((0, 0))
+        pinch_holes = []
+        anchors = list(shell[:-1])
+        for a, b in zip(shell, shell[1:]):      # lattice points inside shell edges
+            g = math.gcd(abs(b[0] - a[0]), abs(b[1] - a[1]))
+            anchors += [(a[0] + (b[0] - a[0]) // g * k, a[1] + (b[1] - a[1]) // g * k) for k in range(1, g)]
+        for _ in range(rng.randint(1, 3)):
+            for _try in range(30):
+                n = rng.choice([3, 3, 4])
+                hole = [(rng.randint(0, W), rng.randint(0, H)) for _ in range(n)]
+                if rng.random() < 0.8:          # force a single-point contact with the shell or an earlier hole
+                    pool = anchors if (not pinch_holes or rng.random() < 0.5) else [p for hh in pinch_holes for p in hh[:-1]]
+                    hole[0] = rng.choice(pool)
+                hole.append(hole[0])
+                if len(set(hole)) != n or det(hole[0], hole[1], hole[2]) == 0: continue
+                if any(segs_conflict(a, b, c, d) for a, b in zip(hole, hole[1:]) for ring in [shell] + pinch_holes for c, d in zip(ring, ring[1:])): continue
+                if n == 4 and (segs_conflict(hole[0], hole[1], hole[2], hole[3]) or segs_conflict(hole[1], hole[2], hole[3], hole[0])): continue
+                c3 = (sum(p[0] for p in hole[:n]) * 3 // n, sum(p[1] for p in hole[:n]) * 3 // n)
+                if not pip(c3, scale_ring(shell, 3)) or any(pip(c3, scale_ring(h2, 3)) for h2 in pinch_holes): continue
+                if not all(pip(p, shell) or any(on_seg(p, a, b) for a, b in zip(shell, shell[1:])) for p in hole[:-1]): continue
+                pinch_holes.append(hole); break
     elif fam == 'holetree':    # a hole touching the shell, further holes touching that hole at its other vertices (tree of touching rings)
         W = rng.randint(10, 16); shell = [(0, 0), (W, 0), (W, 10), (0, 10), (0, 0)]
         ax = rng.randint(4, W - 4)
@@ -502,7 +537,7 @@ def gen_polygon(rng, quick):
         else: shell = scale_ring(monotone_ring(rng, rng.randint(3, 8), 3), 3)
     if rng.random() < 0.3 and fam not in ('bigthin',):
         shell = add_flat_vertices(rng, shell)
-    holes = gen_holes(rng, shell, rng.randint(1, 4)) if fam == 'holes' else tree_holes if fam == 'holetree' else []
+    holes = gen_holes(rng, shell, rng.randint(1, 4)) if fam == 'holes' else tree_holes if fam == 'holetree' else pinch_holes if fam == 'pinch' else []
     if rng.random() < 0.5:
         shell = shell[::-1]
     holes = [h if rng.random() < 0.5 else h[::-1] for h in holes]
@@ -708,7 +743,7 @@ def run(ctx):
         rng = random.Random(sd * 7919 + 16)
         do_predicate(state, rng, 2500 if quick else 20000); ctx.log('predicate correspondence done (seed %d)' % sd)
         do_delaunay(state, rng, 700 if quick else 5000, corpus=(si == 0)); ctx.log('Delaunay done')
-        do_constrained(state, rng, 400 if quick else 3000, corpus=(si == 0)); ctx.log('constrained done')
+        do_constrained(state, rng, 1500 if quick else 4000, corpus=(si == 0)); ctx.log('constrained done')
         do_voronoi(state, rng, 300 if quick else 1500); ctx.log('Voronoi done')
         if state['nviol'] > 8:
             break
@@ -975,7 +1010,7 @@ def eval_constrained(S, cases):
             r['verdict'] = 'INVALID-INPUT'
         elif r['verdict'] == 'MALFORMED':
             r['verdict'] = 'VIOLATION'
-            if r['impl'].startswith('ERR') and 'Unable to find' in r['impl'] and max_touch_degree(r['case'][1]) >= 2:
+            if r['impl'].startswith('ERR') and 'Unable to find' in r['impl'] and k4_configuration(r['case'][1]):
                 r['verdict'] = 'KNOWN-K4'
         elif d == 'OK':
             r['verdict'] = 'OK'
@@ -991,19 +1026,26 @@ def on_seg(p, a, b):
     return det(a, b, p) == 0 and min(a[0], b[0]) <= p[0] <= max(a[0], b[0]) and min(a[1], b[1]) <= p[1] <= max(a[1], b[1])
 
 
-def max_touch_degree(polys):
-    """largest number of other rings of the same polygon that one hole shares a point with (touch graph of the rings)"""
-    best = 0
+def k4_configuration(polys):
+    """the configuration of known finding C16-K4, read off the input alone by replaying the order in which PolygonHoleJoiner
+    treats the holes (sorted by envelope: minx, miny, maxx, maxy): some hole, at its turn, has THREE or more distinct points
+    (its own vertices, or vertices of other rings lying on its edges = the noded touch points) in common with the ring joined
+    so far (shell + earlier holes). Such a hole is spliced in at the first of these points; the others pinch the joined
+    ring and, with the cut lines of earlier non-touching holes, cut a pocket whose boundary is not contiguous in the ring."""
     for rings in polys:
-        for i, h in enumerate(rings):
-            if i == 0: continue
-            deg = 0
-            for j, g in enumerate(rings):
-                if i == j: continue
-                if any(on_seg(p, a, b) for p in h[:-1] for a, b in zip(g, g[1:])) or any(on_seg(p, a, b) for p in g[:-1] for a, b in zip(h, h[1:])):
-                    deg += 1
-            best = max(best, deg)
-    return best
+        if len(rings) < 4:
+            continue
+        allv = set(p for r in rings for p in r)
+        def noded(r):
+            return set(r) | set(p for p in allv if any(on_seg(p, a, b) for a, b in zip(r, r[1:])))
+        holes = sorted(rings[1:], key=lambda h: (min(p[0] for p in h), min(p[1] for p in h), max(p[0] for p in h), max(p[1] for p in h)))
+        joined = noded(rings[0])
+        for h in holes:
+            pts = noded(h)
+            if len(pts & joined) >= 3:
+                return True
+            joined |= pts
+    return False
 
 
 def shrink_polys(S, case, same):
